@@ -271,7 +271,6 @@ def handle (req : Json) : Except String Json := do
   let troot ← resolveRef twin rootJ
   let origAt := snapshot main.w root
   if !wfB main.w then throw "model world is not well-formed (a reference points outside the world)"
-  if !noDupB main.w then throw "model world holds two equal watchers in one list (outside the fragment: the generator must not register a watcher twice)"
   if !ownWatchersB main.w then throw "model world is not well-formed (a watcher is registered on another object than its inst)"
   let mut branches : List String := []
   let model : Obs ← match copyGraph pol main.w root with
